@@ -64,7 +64,10 @@ def _saving_allowed(eng, st, d_to_save):
     env = st.env
     none = lambda v: eng.equal(v, PNONE)
     startswith = z3.Function("startswith", V, V, z3.BoolSort())
-    fuzzy = z3.Function("fn:any", V, z3.BoolSort())(z3.Const("comp:check_cache:1", V))
+    # "fuzzy matching is on": a non-empty fuzzy_for or fuzzy_for_options find option
+    fo = _find_options_value(eng, env["self"].t)
+    ln = z3.Function("len", V, z3.IntSort())
+    fuzzy = z3.Or(ln(fo["fuzzy_for"].t) > 0, ln(fo["fuzzy_for_options"].t) > 0)
     return [
         ("no time range", none(env["time_range"])),
         ("no row selection", none(env["selection"])),
@@ -192,3 +195,42 @@ check_cache = REG.add(Contract(
     # loops 1-3 (subrun loaders, dependency recursion) do not touch this invocation's ghost flags; loop 4 creates savers
     loop_ghost={1: [], 2: [], 3: [], 4: ["saver_added"]},
 ))
+
+
+# --------------------------------------------------------------------------------------
+# Context._find_options: what "fuzzy matching is on" means for check_cache
+# --------------------------------------------------------------------------------------
+FUZZY_FOR = z3.Function("find_options_fuzzy_for", V, V)
+
+
+def _find_options_value(eng, selfv):
+    from pyvc.engine import strv
+    cfg = z3.Function("attr_context_config", V, V)(selfv)
+    gi = z3.Function("getitem", V, V, V)
+    return {"fuzzy_for": Opq(FUZZY_FOR(selfv)), "fuzzy_for_options": Opq(gi(cfg, strv("fuzzy_for_options"))),
+            "allow_incomplete": Opq(gi(cfg, strv("allow_incomplete")))}
+
+
+def _find_options_attr(eng, st, fr, k, node):
+    """``self._find_options`` inside check_cache: the dict described by the contract of the property getter below"""
+    return k(_find_options_value(eng, st.env["self"].t), st)
+
+
+def _fo_ens(S, a, r):
+    if not isinstance(r, dict):
+        return [("the find options are a literal dict", S.false)]
+    cfg = S.attr(a.self, "context_config")
+    return [("exactly the three find options", S.b(sorted(r) == ["allow_incomplete", "fuzzy_for", "fuzzy_for_options"])),
+            ("fuzzy_for_options and allow_incomplete are the context's settings",
+             S.And(S.eq(S.v(r["fuzzy_for_options"]), S.getitem(cfg, "fuzzy_for_options")),
+                   S.eq(S.v(r["allow_incomplete"]), S.getitem(cfg, "allow_incomplete"))))]
+
+
+find_options = REG.add(Contract(
+    F, "Context._find_options",
+    params=dict(self="V"),
+    ensures=_fo_ens, raises={},
+    loops={1: Loop(lambda S, a: [])},
+    calls={"strax.to_str_tuple": Abstract(pure=True)},
+))
+check_cache.attrs["self._find_options"] = _find_options_attr
